@@ -23,9 +23,14 @@ import (
 type Case struct {
 	kit.Case
 	SchedSeed uint64 `json:"sched_seed"`
+	// Storm: the case is a failure storm (many sibling failures at the same instant); the tick
+	// schedule is then repeated this many times
+	Storm int `json:"storm,omitempty"`
 }
 
-var modes = []string{"", "yield", "delay", "reverse", "mixed", "yield", "delay", "mixed"}
+var modes = []string{"", "yield", "delay", "reverse", "mixed", "tick", "delay", "tick"}
+
+var indexRe = regexp.MustCompile(`\[\d+\]`)
 
 var lastIndex = regexp.MustCompile(`^(.*)\[(\d+)\]([^\[\]]*)$`)
 
@@ -135,8 +140,12 @@ func check(c Case) *vfrun.Failure {
 	orders := map[string]bool{}
 	maxInflight := int64(0)
 	var first []byte
+	runModes := modes
+	for i := 0; i < c.Storm; i++ {
+		runModes = append(append([]string{}, runModes...), "tick")
+	}
 	for _, s := range srvs {
-		for mi, mode := range modes {
+		for mi, mode := range runModes {
 			p := c.Case.Plan()
 			p.Schedule = &plan.Schedule{Mode: mode, Seed: c.SchedSeed + uint64(mi)}
 			if mode == "reverse" {
@@ -205,6 +214,63 @@ func gen(t *rapid.T) Case {
 	}
 	ref := kit.Reference(s, pr, c.Case.Plan())
 	c.Overrides = kit.DrawOverrides(t, kit.Candidates(ref), 3, true)
+	// a storm: the same resolver field under every element of a list fails, so that under the tick
+	// schedule several failures are recorded at the same instant
+	if rapid.IntRange(0, 3).Draw(t, "storm?") == 0 {
+		groups := map[string][]string{}
+		var order []string
+		for _, k := range ref.Resolvers {
+			pat := indexRe.ReplaceAllString(k, "[*]")
+			if pat == k {
+				continue
+			}
+			if len(groups[pat]) == 0 {
+				order = append(order, pat)
+			}
+			groups[pat] = append(groups[pat], k)
+		}
+		var big []string
+		for _, pat := range order {
+			if len(groups[pat]) >= 2 {
+				big = append(big, pat)
+			}
+		}
+		if len(big) > 0 {
+			pat := big[rapid.IntRange(0, len(big)-1).Draw(t, "stormgroup")]
+			if c.Overrides == nil {
+				c.Overrides = map[string]plan.Outcome{}
+			}
+			// make the innermost list of the pattern long, then fail the field under every element
+			keys := groups[pat]
+			if i := strings.LastIndex(pat, "[*]"); i >= 0 {
+				parent := keys[0][:strings.LastIndex(keys[0], "[")]
+				if _, isResolver := ref.Pos[parent]; isResolver {
+					n := 12
+					o := c.Overrides[parent]
+					if o.Kind == "" || o.Kind == plan.Value {
+						o.Kind, o.Len = plan.Value, &n
+						c.Overrides[parent] = o
+						ref2 := kit.Reference(s, pr, c.Case.Plan())
+						keys = nil
+						for _, k := range ref2.Resolvers {
+							if indexRe.ReplaceAllString(k, "[*]") == pat {
+								keys = append(keys, k)
+							}
+						}
+					}
+				}
+				_ = i
+			}
+			for i, k := range keys {
+				if i >= 16 {
+					break
+				}
+				c.Overrides[k] = plan.Outcome{Kind: plan.Error, Msg: fmt.Sprintf("storm%d", i)}
+			}
+			c.Storm = 12
+			vfrun.Label("failure-storm")
+		}
+	}
 	// a list element of abstract type that no implementor matches: the generated type switch panics
 	// in the element's goroutine and the list-level handler has to contain it - under every schedule
 	var abstract []string
@@ -221,6 +287,70 @@ func gen(t *rapid.T) Case {
 		vfrun.Label("foreign-list-element")
 	}
 	return c
+}
+
+// stormQueries: selections in which one non-null resolver field sits under every element of a list
+// (on the probe whose schema declares an executable directive, so that fields resolve through the
+// generated field middleware as well).
+var stormQueries = []string{
+	`{ as { id rsnn } }`,
+	`{ asnn { rsnn name } s }`,
+	`{ asn { x: rsnn y: rsnn } }`,
+	`{ as { bnn { id } rs } }`,
+	`{ a { as { rsnn bnn { id } } } }`,
+	`{ nodes { id ... on A { rsnn } } }`,
+	`{ as { guardedNN id } }`,
+}
+
+func genStorm(t *rapid.T) Case {
+	var c Case
+	c.Project = "roots"
+	srvs, err := kit.Servers(c.Project)
+	if err != nil {
+		c.Project = "core"
+		if srvs, err = kit.Servers(c.Project); err != nil {
+			t.Fatalf("harness: %v", err)
+		}
+	}
+	s := srvs[0]
+	c.Query = rapid.SampledFrom(stormQueries).Draw(t, "stormquery")
+	c.PlanSeed = rapid.Uint64Range(1, 1<<32).Draw(t, "planseed")
+	c.SchedSeed = rapid.Uint64Range(1, 1<<32).Draw(t, "schedseed")
+	pr, f := kit.Prepare(s, c.Case)
+	if f != nil {
+		t.Fatalf("harness: storm query invalid: %s", f.Msg)
+	}
+	c.Overrides = map[string]plan.Outcome{}
+	n := rapid.IntRange(4, 16).Draw(t, "stormwidth")
+	// every list resolver the default plan reaches is made n long, then every non-null resolver
+	// field below a list element fails
+	for round := 0; round < 3; round++ {
+		ref := kit.Reference(s, pr, c.Case.Plan())
+		for _, k := range ref.Resolvers {
+			if ref.Pos[k].List {
+				if _, set := c.Overrides[k]; !set {
+					c.Overrides[k] = plan.Outcome{Kind: plan.Value, Len: &n}
+				}
+			}
+		}
+	}
+	ref := kit.Reference(s, pr, c.Case.Plan())
+	i := 0
+	for _, k := range ref.Resolvers {
+		if strings.Contains(k, "[") && ref.Pos[k].NonNull && !ref.Pos[k].List && i < 24 {
+			c.Overrides[k] = plan.Outcome{Kind: plan.Error, Msg: fmt.Sprintf("storm%d", i)}
+			i++
+		}
+	}
+	c.Storm = 16
+	vfrun.Label("failure-storm")
+	return c
+}
+
+// TestFailureStorm: many sibling failures recorded at the same instant (tick schedule, repeated): the
+// multiset of errors has to be the reference's every time.
+func TestFailureStorm(t *testing.T) {
+	vfrun.Run(t, vfrun.Prop[Case]{Property: "C06", Name: "TestFailureStorm", Gen: genStorm, Check: check}, vfrun.N(160, 4000))
 }
 
 func TestSchedules(t *testing.T) {
